@@ -205,6 +205,8 @@ func scanStringLiteralToken(buf string, pos int) Token {
 			}
 			c2 := buf[pos+i]
 			bb.WriteByte(c2)
+		} else if c == '\n' {
+			bb.WriteString("\\n")
 		} else {
 			bb.WriteByte(c)
 		}
